@@ -115,7 +115,15 @@ def judge_result(res, driver, kind, out, cmd, result, strict, case, who, others=
             observe(res, "late_answer_reported_as_no_answer")
             return "late"
         if got[0] == "value" and got in others:
-            # the answer of ANOTHER caller's command: one finding per driver, whatever the command kind
+            # the answer of ANOTHER caller's command.  Two different histories give this symptom; only the
+            # first is the recorded protocol-inherent finding: (a) the late answer reached the driver AFTER
+            # this caller had been started (it slipped in behind the pre-send flush); (b) it was already
+            # there before this caller started - then the flush should have removed it.
+            if case.get("__late_before_start__"):
+                add_violation(res, f"C16:{driver}:stale-answer-not-flushed",
+                              f"{driver} send({kind}): handed {got}, another command's answer that had arrived BEFORE this send started "
+                              f"and should have been discarded ({who})", case)
+                return "stale-unflushed"
             add_violation(res, f"C16:{driver}:stale-answer-of-another-command",
                           f"{driver} send({kind}): bus outcome for this command was {out}, but the caller was handed {got}, the answer to "
                           f"another caller's command that arrived late ({who})", case)
@@ -129,6 +137,18 @@ def judge_result(res, driver, kind, out, cmd, result, strict, case, who, others=
 def judge(res, driver, spec, mode, w, obs, strict):
     case = {"driver": driver, "spec": [[k, list(o)] for k, o in spec], "mode": mode}
     outs = []
+    late_before = {}
+    if driver in ("luba", "sci") and mode == "plain":
+        # for every caller: was some backward-frame report delivered before it was started but after an
+        # earlier timer had fired (i.e. a late answer that was sitting in the queue when it began)?
+        for i in range(len(spec)):
+            lbl = f"start:c{i + 1}"
+            if lbl in w.trace:
+                ts = w.trace.index(lbl)
+                first_timer = next((n for n, e in enumerate(w.trace) if e == "timer"), None)
+                def is_answer(b):
+                    return (len(b) > 6 and b[1] == 0x31 and (b[6] >> 6) == 2 and b[2] == 5) if driver == "luba" else (len(b) == 5 and (b[0] & 0x0F) == 2)
+                late_before[i] = first_timer is not None and any(first_timer < pos < ts and is_answer(b) for pos, b in w.deliveries)
     if w.status != "quiescent":
         add_violation(res, f"C16:{driver}:horizon", f"{driver} {spec}: step horizon reached", case)
     if mode == "trx2":
@@ -142,6 +162,9 @@ def judge(res, driver, spec, mode, w, obs, strict):
     else:
         for i, ((kind, out), cmd, oc) in enumerate(zip(spec, w.cmds, obs["callers"])):
             others = [tuple(o) for i2, (k2, o) in enumerate(spec) if i2 != i]
+            case = dict(case)
+            if late_before.get(i):
+                case["__late_before_start__"] = True
             if oc[0] == "returned":
                 outs.append(judge_result(res, driver, kind, out, cmd, oc[1], strict, case, f"caller {i + 1} of {len(spec)}", others))
             elif oc[0] == "raised":
@@ -171,6 +194,51 @@ class FakeSocket:
 
     def close(self):
         pass
+
+
+class ServerSocket:
+    """daliserver model: every 4-byte request is answered by exactly one 4-byte reply, in order."""
+
+    def __init__(self, table, log):
+        self.table, self.log, self.replies = table, log, []
+
+    def send(self, data):
+        data = bytes(data)
+        self.log.append(data)
+        out = self.table.get(data[2:], ("none",))
+        self.replies.append({"none": bytes([2, 0, 0, 0]), "err": bytes([2, 255, 0, 0])}.get(out[0]) or bytes([2, 1, out[1], 0]))
+        return len(data)
+
+    def recv(self, n):
+        return self.replies.pop(0) if self.replies else b""
+
+    def close(self):
+        pass
+
+
+def run_daliserver_sequence(spec, multi):
+    """Several commands through ONE DaliServer object (persistent connection when multi)."""
+    import dali.driver.daliserver as DS
+    cmds = [build_cmd(kind, i + 1) for i, (kind, out) in enumerate(spec)]
+    table = {c.frame.pack: tuple(out) for c, (kind, out) in zip(cmds, spec)}
+    log = []
+    socks = []
+
+    class _S:
+        @staticmethod
+        def create_connection(target):
+            socks.append(ServerSocket(table, log))
+            return socks[-1]
+    DS.socket = _S
+    d = DS.DaliServer(multiple_frames_per_connection=multi)
+    results = []
+    with d:
+        for c in cmds:
+            try:
+                results.append(d.send(c))
+            except Exception as e:
+                results.append(e)
+    return cmds, results
 
 
 def run_daliserver(kind, out, multi):
@@ -328,6 +396,20 @@ def run_shard(shard):
                         o = judge_result(res, "atx", kind, out, cmd, r, True, case, "sync")
                         outs.add(("atx", kind, out, o))
                     res["evaluations"] += 1
+        # sequences over one client object / one persistent connection: answers must stay paired
+        seq_alpha = [("off", ("none",)), ("twice", ("none",)), ("num", ("value", 0x42)), ("num", ("none",)), ("yn", ("value", 255)),
+                     ("bits", ("value", 0x11)), ("gen", ("err",))]
+        for L in (2, 3):
+            for seq in itertools.product(seq_alpha, repeat=L):
+                vals = [(k, (o[0], o[1] + i) if o[0] == "value" and k != "yn" else o) for i, (k, o) in enumerate(seq)]
+                for multi in (False, True):
+                    cmds, results = run_daliserver_sequence(vals, multi)
+                    case = {"driver": "daliserver", "spec": [[k, list(o)] for k, o in vals], "mode": "sync-seq", "multi": multi}
+                    for j, ((kind, out), cmd, r) in enumerate(zip(vals, cmds, results)):
+                        others = [tuple(o) for i2, (k2, o) in enumerate(vals) if i2 != j]
+                        o = judge_result(res, "daliserver", kind, out, cmd, r, True, case, f"command {j + 1} of {L}, persistent={multi}", others)
+                        outs.add(("daliserver-seq", kind, o))
+                    res["evaluations"] += 1
         sample(res, {"sync_drivers": ["daliserver", "atxled"], "kinds": KINDS, "outcomes": [list(o) for o in OUTS]})
     res["states"] = len(outs)
     res["distinct"] = outs
@@ -338,8 +420,9 @@ def replay(case):
     res = new_result()
     spec = [(k, tuple(o)) for k, o in case["spec"]]
     drv, mode = case["driver"], case.get("mode", "plain")
-    if mode == "sync":
-        return [v for v in run_shard(("sync",))["violations"] if v["case"]["driver"] == drv and v["case"]["spec"] == case["spec"]]
+    if mode in ("sync", "sync-seq"):
+        return [v for v in run_shard(("sync",))["violations"] if v["case"]["driver"] == drv and v["case"]["spec"] == case["spec"]
+                and v["case"].get("multi") == case.get("multi")]
     bound = case.get("bound", 2)
     mk = make_world(drv, spec, mode)
     first = None
